@@ -123,6 +123,14 @@ class SecondSlotCounter:
         # and read by the statistics thread
         self._lock = threading.Lock()
 
+    def __deepcopy__(self, memo):
+        # the statistics are calculated from copies of the counters; a lock
+        # cannot be copied, the copy gets one of its own
+        counter_copy = SecondSlotCounter(self._maxage)
+        with self._lock:
+            counter_copy._slots = dict(self._slots)
+        return counter_copy
+
     def add_count(self, count: int):
         """Increment counter by the given amount.
 
